@@ -22,7 +22,7 @@
     `right` after the whole input).
   * `DqOp`: caller operations on the yielded `deque(maxlen=size)` that CHANGE its length (append,
     appendleft, pop, popleft, clear, extend, del, insert) and the ones that may FAIL (IndexError:
-    pop from an empty deque, index out of range, insert into a full deque): a failed operation
+    pop from an empty deque, index out of range, insert into a full deque), with indices of either sign: a failed operation
     leaves the deque as it was and the history goes on.
 -/
 import ALV.Model.C08
@@ -50,6 +50,11 @@ def zeroPadParams : List String := ["seq", "left", "right", "zero"]
 
 /-! ### spellings -/
 
+/-- the floats that are not finite -/
+inductive NonFin where
+  | pinf | ninf | nan
+  deriving DecidableEq, Repr
+
 /-- a parameter value as the arithmetic of the code sees it -/
 inductive Num where
   | int (i : Int)      -- int, bool (True = 1, False = 0), int subclasses
@@ -57,6 +62,7 @@ inductive Num where
   | frac (q : Rat)     -- fractions.Fraction
   | none               -- None
   | other              -- str / any object without arithmetic
+  | fnf (k : NonFin)   -- float('inf'), float('-inf'), float('nan')
   deriving DecidableEq
 
 inductive PyErr where
@@ -87,6 +93,7 @@ def initSize : Num → Except PyErr Nat
 inductive HopV where
   | int (h : Int)
   | rat (q : Rat)      -- float or Fraction: `size - hop` has no `__index__`
+  | nonfin (k : NonFin)
 
 /-- `if hop is None: hop = size`; `reinit_idx = size - hop` -/
 def initHop (size : Nat) : Num → Except PyErr HopV
@@ -94,7 +101,53 @@ def initHop (size : Nat) : Num → Except PyErr HopV
   | .int h => .ok (.int h)
   | .flt q => .ok (.rat q)
   | .frac q => .ok (.rat q)
+  | .fnf k => .ok (.nonfin k)
   | .other => .error .typeError
+
+/-! ### index arithmetic with a non-finite float in play
+
+IEEE-754 on the values that occur when `hop` is `inf` / `-inf` / `nan` and `size` is an int: the finite part is
+exact (small whole numbers), `±inf + 1 = ±inf`, `nan` propagates, every comparison with `nan` is false. -/
+
+inductive XRat where
+  | fin (q : Rat)
+  | pinf | ninf | nan
+  deriving DecidableEq
+
+def XRat.add : XRat → XRat → XRat
+  | .fin a, .fin b => .fin (a + b)
+  | .nan, _ => .nan
+  | _, .nan => .nan
+  | .pinf, .ninf => .nan
+  | .ninf, .pinf => .nan
+  | .pinf, _ => .pinf
+  | _, .pinf => .pinf
+  | .ninf, _ => .ninf
+  | _, .ninf => .ninf
+
+def XRat.ltb : XRat → XRat → Bool
+  | .fin a, .fin b => decide (a < b)
+  | .ninf, .fin _ => true
+  | .ninf, .pinf => true
+  | .fin _, .pinf => true
+  | _, _ => false
+
+instance : Add XRat := ⟨XRat.add⟩
+instance : LT XRat := ⟨fun a b => XRat.ltb a b = true⟩
+instance : DecidableRel (fun a b : XRat => a < b) := fun a b => inferInstanceAs (Decidable (XRat.ltb a b = true))
+instance : OfNat XRat 0 := ⟨.fin 0⟩
+instance : OfNat XRat 1 := ⟨.fin 1⟩
+
+/-- `size - hop` for a non-finite `hop` -/
+def XRat.sizeMinus : NonFin → XRat
+  | .pinf => .ninf
+  | .ninf => .pinf
+  | .nan => .nan
+
+/-- the int an index stands for (only asked of indices that are still Python ints) -/
+def XRat.toN : XRat → Nat
+  | .fin q => q.floor.toNat
+  | _ => 0
 
 /-! ### the loops over an index type -/
 section Generic
@@ -162,6 +215,7 @@ def blocksCall (dflt : α) (size hop : Num) (padval : Option α) (iterable : Boo
       else match hv with
         | .int h => grun sz ((sz : Int) - 1) ((sz : Int) - h) true Int.toNat pad xs e
         | .rat q => grun sz ((sz : Rat) - 1) ((sz : Rat) - q) false (fun r => r.floor.toNat) pad xs e
+        | .nonfin k => grun sz (XRat.fin ((sz : Rat) - 1)) (XRat.sizeMinus k) false XRat.toN pad xs e
 
 /-- the call as written: positional and keyword arguments (values of type `α`, read as numbers by
 `asNum` and as the data argument by `asIter`); `none` = TypeError when the call is made. -/
@@ -226,6 +280,18 @@ inductive DqOp (α : Type) where
   | extend (vs : List α)
   | del (i : Nat)              -- del blk[i]
   | insert (i : Nat) (v : α)   -- blk.insert(i, v)
+  | setI (i : Int) (v : α)     -- blk[i] = v      with any int index (negative: from the end)
+  | delI (i : Int)             -- del blk[i]      with any int index
+  | insertI (i : Int) (v : α)  -- blk.insert(i, v) with any int index
+
+/-- Python's reading of an index into a sequence of `len` items: `-len ≤ i < len`, a negative one counts from the end;
+`none` = IndexError -/
+def normIdx (i : Int) (len : Nat) : Option Nat :=
+  if 0 ≤ i then (if i.toNat < len then some i.toNat else none)
+  else if -(len : Int) ≤ i then some (i + len).toNat else none
+
+/-- where `insert(i, v)` puts the item: a negative index counts from the end and is cut at 0 -/
+def insPos (i : Int) (len : Nat) : Nat := if 0 ≤ i then i.toNat else (i + len).toNat
 
 /-- `none` = the operation raises IndexError and leaves the deque as it was -/
 def DqOp.apply (size : Nat) : DqOp α → List α → Option (List α)
@@ -239,6 +305,10 @@ def DqOp.apply (size : Nat) : DqOp α → List α → Option (List α)
   | .extend vs, l => some (vs.foldl (dqPush size) l)
   | .del i, l => if i < l.length then some (l.eraseIdx i) else none
   | .insert i v, l => if size ≤ l.length then none else some (l.take i ++ v :: l.drop i)
+  | .setI i v, l => (normIdx i l.length).map fun k => l.set k v
+  | .delI i, l => (normIdx i l.length).map fun k => l.eraseIdx k
+  | .insertI i v, l =>
+    if size ≤ l.length then none else some (l.take (insPos i l.length) ++ v :: l.drop (insPos i l.length))
 
 /-- a sequence of operations; a failed one leaves no trace -/
 def applyOps (size : Nat) (ops : List (DqOp α)) (l : List α) : List α :=
